@@ -59,7 +59,7 @@ def check(ctx):
             ok, out, diag = vlib.run_harness_sharded(hb, ["vm"], lines)
             ctx.oblige("harness:vm:%s" % ("permissive" if mode else "strict"), "correspondence", ok, diag)
             outs["vm%d" % mode] = out
-            alines = [l + " all" for l in lines]
+            alines = [l + " all sorted" for l in lines]
             ok, out, diag = vlib.run_harness_sharded(hb, ["analyze"], alines)
             ctx.oblige("harness:analyze:%s" % ("permissive" if mode else "strict"), "search", ok, diag)
             outs["an%d" % mode] = out
